@@ -404,10 +404,24 @@ func genUpdateBodies(scripted bool) func(g *gen) {
 	}
 }
 
+// genBitmap: every single code against all 256 queries, and random sets
+func genBitmap(g *gen) {
+	all := make([]byte, 256)
+	for i := range all {
+		all[i] = byte(i)
+	}
+	for b := 0; b < 256; b++ {
+		g.emit("bitmap", term.Hex([]byte{byte(b)}), term.Hex(all))
+	}
+	for i := 0; i < g.scale(300, 5000); i++ {
+		g.emit("bitmap", term.Hex(g.bytes(1+g.r.Intn(12))), term.Hex(all))
+	}
+}
+
 func init() {
 	generators["C18"] = []func(*gen){genAttrDecoders}
 	generators["C19"] = []func(*gen){genPrefixes, genMPSplitters}
-	generators["C16"] = []func(*gen){genUpdateBodies(false)}
+	generators["C16"] = []func(*gen){genUpdateBodies(false), genBitmap}
 	generators["C17"] = []func(*gen){genUpdateBodies(true), genUpdateBodies(false), genFromErr}
 }
 
